@@ -14,6 +14,7 @@ import (
 	"strings"
 
 	"github.com/openebs/jiva/controller"
+	jsync "github.com/openebs/jiva/sync"
 	"github.com/openebs/jiva/types"
 
 	"verif/harness/kernel"
@@ -129,6 +130,7 @@ func tailStr(s string, n int) string {
 
 // step = one external event, then (when configured) the internal monitor wake-ups it enabled, then the oracles.
 func (cl *cluster) step(ev string) {
+	cl.stepBefore = cl.c.VerifView()
 	cl.apply(ev)
 	if len(cl.viol) > 0 {
 		return
@@ -147,6 +149,9 @@ func (cl *cluster) step(ev string) {
 	}
 	v := cl.c.VerifView()
 	cl.refreshDetached(v)
+	for i := range cl.nodes {
+		cl.oracleVerify(cl.stepBefore, i, nil)
+	}
 	cl.stateOracles(v)
 }
 
@@ -244,7 +249,6 @@ func (cl *cluster) apply(ev string) {
 		cl.observe("%s -> %v", ev, err != nil)
 		cl.terr(ev, err)
 		cl.settle()
-		cl.oracleVerify(before, i, err)
 		if err == nil {
 			cl.terr(ev, cl.rest(i, "setrebuilding", `{"rebuilding":false}`))
 		}
@@ -291,6 +295,35 @@ func (cl *cluster) apply(ev string) {
 		i := atoi(f[1])
 		err := cl.guard(ev, func() error { return c.SetReplicaMode(addr(i), types.Mode(f[0])) })
 		cl.observe("%s -> %v", ev, err != nil)
+	case "RB":
+		i := atoi(f[1])
+		rn, ok := cl.nodes[i].(*RealNode)
+		if !ok {
+			panic("RB needs real nodes")
+		}
+		cl.nAdds++
+		cl.startTask("rebuild", i, func() error {
+			return jsync.NewTask("http://" + ctlHost + ":9501").AddReplica(addr(i), rn.srv)
+		})
+		cl.observe("%s -> %s", ev, cl.taskDesc())
+	case "Step":
+		cl.stepTask()
+		cl.observe("Step -> %s", cl.taskDesc())
+		if cl.task.done && cl.trace && cl.task.err != nil {
+			cl.notes = append(cl.notes, fmt.Sprintf("    task error: %v", cl.task.err))
+		}
+		if cl.task.panicked != "" {
+			cl.violate("panic", "panic:task:"+cl.task.kind, "the replica-side task panicked: "+cl.task.panicked)
+		}
+	case "Kill":
+		// the joining replica's process dies at the gate its task is parked at and is started again
+		n := cl.task.node
+		cl.killTask()
+		if rn, ok := cl.nodes[n].(*RealNode); ok {
+			rn.Crash()
+		}
+		cl.nRestart++
+		cl.observe("Kill -> %s", cl.taskDesc())
 	case "Break":
 		cl.stickyREST[f[1]+"/"+f[2]] = true
 		cl.nFaults++
